@@ -13,7 +13,7 @@ CONSTANTS B = 4
   TU_FROM_START = TRUE
   NOTDEF_OWN = TRUE
   Mode = "map"
-  SpaceNames = {"s1", "s2", "mix", "mixw"}
+  SpaceNames = {"s1", "s2", "mix", "mix0", "mixw"}
   FamNames = {"cid", "tu1", "tuEdge", "tuMix", "tuPrefix"}
   ChainSpaces = {"s1"}
   MaxTop <- TopFour
